@@ -14,7 +14,7 @@ out = {
  'setup_cmd': 'cd /verif && GOFLAGS=-mod=mod GOPROXY=off GOSUMDB=off GOTOOLCHAIN=local GOWORK=off go run ./cmd/verif setup',
  'hooks': {
    'guard': 'verif',
-   'enable': 'no source change in /repo: `go build -tags verif -overlay <generated>` substitutes instrumented copies of slog/*.go (sync->shim, map-range order seam, time.Now seam) and adds _overlay/zz_verif_export.go (//go:build verif) to package slog; regenerated from the working tree on every check run',
+   'enable': 'no source change in /repo: `go build -tags verif -overlay <generated>` substitutes instrumented copies of slog/*.go (sync->shim, map-range order seam, time.Now seam) and adds two files to package slog (//go:build verif): _overlay/zz_verif_export.go (accessors) and a generated zz_verif_globals.go (snapshot/restore/dump of every package-level variable found in the tree); regenerated from the working tree on every check run; functions of the added files that do not compile against the tree are stubbed and the checks that use a stub print INFRA ... DEGRADED (no verdict)',
    'baseline_off_cmd': 'cd /repo && for m in . tests; do (cd $m && GOPROXY=off GOSUMDB=off GOTOOLCHAIN=local go test -vet=off -count=1 ./...); done',
    'source_commits': [],
    'add_only': True,
